@@ -190,6 +190,10 @@ pub fn run(ctx: &Ctx, rep: &mut Report) {
     for uni in ctx.my_universes(total) {
         let mut rng = ctx.rng_for(uni);
         rep.begin_universe(uni);
+        if uni == 0 {
+            // once per run: the history recorded under the pinned version, continued by the current code
+            crate::legacy::run(rep, "C08");
+        }
         let long = uni >= enumerated;
         let retention = if long { *rng.pick(&[15u64, 16, 17, 20, 33, u64::MAX]) } else { retentions[(uni / (3 * seqs)) as usize % retentions.len()] };
         let n_init = 1 + ((uni / seqs) % 3) as usize;
